@@ -77,7 +77,7 @@ def kind(v):
 
 class FreshDomain(EventsMixin, Domain):
   name = 'fresh'
-  inline_depth = 8
+  inline_depth = 12
 
   def __init__(self, repo, hyper_kinds=None, fitted_roots=False,
                invoke_callbacks=True):
@@ -279,6 +279,10 @@ class FreshDomain(EventsMixin, Domain):
 
   def method_call(self, recv, name, args, kwargs, node, st, eng):
     if name in INPLACE_METHODS:
+      # a list / dict / set built in this scope (literal or comprehension):
+      # changing the container does not touch the objects it holds
+      if recv.ty in ('list', 'dict', 'set'):
+        return IMM
       self._write(recv, 'method .%s()' % name, node)
       return IMM
     out = kwargs.get('out')
